@@ -114,6 +114,18 @@ def run(rep: Report, repo: Repo):
         rep.note('stimulus correspondence is checked by C03 (module not built yet)')
 
 
+def depends(rep, repo):
+    """Rules of the mechanisms this property's results rest on (schedule validity and memory map of SimOps): a change
+    that breaks them breaks this property too, so they are part of this check (rule ids keep their C07./C08. prefix)."""
+    from checks import c03, c07, c08
+    from kvstatic.wavekernel import Kernel
+    K = Kernel(repo)
+    c03.initial_value(rep, K)      # the hazard/initial-final theorems rest on the parity invariant of the timing kernel
+    c03.parity(rep, K)
+    c07.schedule_rules(rep, repo)
+    c08.map_rules(rep, repo)
+
+
 def thorough(rep, repo):
     """Thorough tier: the quick rules plus checker self-validation on the C05 slice of the mutation corpus , a second evaluator for engine A and an alias sweep."""
     from kvstatic import thorough as thorough_mod
